@@ -293,7 +293,7 @@ func (c *Ctx) c03Sibling(fo *FO) {
 	cellsSeen := map[string]int{}
 	nLone := 0
 	zero := fo.E.IntConst(0)
-	minus1 := fo.E.IntConst(-1)
+	_ = fo.E.IntConst(-1)
 	for _, p := range fo.Paths {
 		if len(p.Unsup) > 0 {
 			r.Unknown("R03.1", cons, "unmodelled construct: "+p.Unsup[0])
@@ -455,9 +455,9 @@ func (c *Ctx) c03Sibling(fo *FO) {
 		// remaining cell dimensions
 		failCaches := []string{"off", "miss"}
 		if fv := fo.cfgVal(p, "FailedUpdateTTL"); fv != nil {
-			rel := p.Rel(fv, minus1)
+			enabledTri := gtMinus1(p, fo.E, fv)
 			switch {
-			case rel&^pw.RGt == 0: // > -1
+			case enabledTri == triTrue: // > -1
 				failCaches = []string{"miss"}
 				if errorsRead != nil {
 					switch nilTri(p, errorsRead.Results[1]) {
@@ -472,7 +472,7 @@ func (c *Ctx) c03Sibling(fo *FO) {
 					// enabled but never consulted on this path: the path must be allowed in both cells.
 					failCaches = []string{"miss", "hit"}
 				}
-			case rel&pw.RGt == 0:
+			case enabledTri == triFalse:
 				failCaches = []string{"off"}
 			}
 		} else {
